@@ -41,6 +41,30 @@ func workloads() []*resource.Info {
 
 var cleanRef []*resource.Info
 
+// surroundings are the documents next to the conflicting ones: the conflict must be rejected whatever else the input
+// holds, in particular when it holds no workload at all and when Services (whose selectors make the ingress analysis
+// look at the pods of single namespaces before the peers are listed) of other namespaces come first.
+var surroundNames = []string{"two-deployments", "no-workload-at-all", "services-of-other-namespaces-first", "services-last"}
+
+func surroundings(c *fw.Ctx) (before, after []*resource.Info, name string) {
+	k := c.Choose(len(surroundNames), "surrounding documents")
+	svcs := []*resource.Info{
+		wm.Svc{NS: "ns2", Name: "svc-x", Sel: map[string]string{"app": "x"}, Ports: []wm.SvcPort{{Port: 80}}}.Info(),
+		wm.Svc{NS: "ns3", Name: "svc-none", Sel: map[string]string{"app": "none"}, Ports: []wm.SvcPort{{Port: 80}}}.Info(),
+		wm.Svc{NS: "ns1", Name: "svc-a", Sel: map[string]string{"app": "a"}, Ports: []wm.SvcPort{{Port: 80}}}.Info(),
+		wm.Ing{NS: "ns1", Name: "ing", Default: &wm.Backend{Svc: "svc-a", PortNum: 80}}.Info(),
+	}
+	switch k {
+	case 0:
+		return workloads(), nil, surroundNames[k]
+	case 1:
+		return nil, nil, surroundNames[k]
+	case 2:
+		return append(svcs, workloads()...), nil, surroundNames[k]
+	}
+	return workloads(), svcs, surroundNames[k]
+}
+
 func eval(cs Case, x *fw.Rec) {
 	x.Describe(func() any { return map[string]any{"case": cs.Desc, "manifests": wm.InfoYAML(cs.Infos)} })
 	type run struct {
@@ -159,8 +183,11 @@ func Run(r *fw.Run) {
 	// (i) all permutations, one equal-priority pair (elements 0 and 1)
 	fw.Explore(r, "equal-priority/all-permutations", fw.Full, func(c *fw.Ctx) Case {
 		n := 2 + c.Choose(maxPerm-1, "n")
+		infos, after, sn := surroundings(c)
+		if n > 5 && sn != surroundNames[0] && sn != surroundNames[1] {
+			c.Skip()
+		}
 		p := permFromChoices(c, n)
-		infos := workloads()
 		for _, i := range p {
 			prio := 10 * (i + 1)
 			if i == 1 {
@@ -168,7 +195,8 @@ func Run(r *fw.Run) {
 			}
 			infos = append(infos, wm.InfoANP(anp(fmt.Sprintf("pol-%02d", i), prio)))
 		}
-		return Case{Infos: infos, Expect: []string{"pol-00", "pol-01", "same priority"}, Desc: fmt.Sprintf("equal-priority n=%d order=%v", n, p)}
+		infos = append(infos, after...)
+		return Case{Infos: infos, Expect: []string{"pol-00", "pol-01", "same priority"}, Desc: fmt.Sprintf("equal-priority n=%d order=%v surroundings=%s", n, p, sn)}
 	}, eval)
 
 	// (ii) large n: every position pair over base orders
@@ -185,7 +213,10 @@ func Run(r *fw.Run) {
 			c.Skip()
 		}
 		base := orders[b]
-		infos := workloads()
+		infos, after, sn := surroundings(c)
+		if sn != surroundNames[0] && (n > 13 || b > 1) {
+			c.Skip() // the other surroundings with the small n and two base orders
+		}
 		for pos, v := range base {
 			prio := 10 + v
 			if pos == j {
@@ -193,7 +224,8 @@ func Run(r *fw.Run) {
 			}
 			infos = append(infos, wm.InfoANP(anp(fmt.Sprintf("pol-%02d", pos), prio)))
 		}
-		return Case{Infos: infos, Expect: []string{fmt.Sprintf("pol-%02d", i), fmt.Sprintf("pol-%02d", j), "same priority"}, Desc: fmt.Sprintf("equal-priority n=%d base=%s i=%d j=%d", n, names[b], i, j)}
+		infos = append(infos, after...)
+		return Case{Infos: infos, Expect: []string{fmt.Sprintf("pol-%02d", i), fmt.Sprintf("pol-%02d", j), "same priority"}, Desc: fmt.Sprintf("equal-priority n=%d base=%s i=%d j=%d surroundings=%s", n, names[b], i, j, sn)}
 	}, eval)
 
 	// (iii) priority out of range at every position
@@ -204,7 +236,10 @@ func Run(r *fw.Run) {
 		b := c.Choose(len(orders), "base order")
 		j := c.Choose(n, "position")
 		bad := fw.Pick(c, []int{-1, 1001, -1000, 100000}, "bad priority")
-		infos := workloads()
+		infos, after, sn := surroundings(c)
+		if sn != surroundNames[0] && (n > 5 || b > 1) {
+			c.Skip()
+		}
 		for pos, v := range orders[b] {
 			prio := 10 + v
 			if pos == j {
@@ -212,7 +247,8 @@ func Run(r *fw.Run) {
 			}
 			infos = append(infos, wm.InfoANP(anp(fmt.Sprintf("pol-%02d", pos), prio)))
 		}
-		return Case{Infos: infos, Expect: []string{fmt.Sprintf("pol-%02d", j), fmt.Sprint(bad), "Priority"}, Desc: fmt.Sprintf("priority-range n=%d base=%s position=%d value=%d", n, names[b], j, bad)}
+		infos = append(infos, after...)
+		return Case{Infos: infos, Expect: []string{fmt.Sprintf("pol-%02d", j), fmt.Sprint(bad), "Priority"}, Desc: fmt.Sprintf("priority-range n=%d base=%s position=%d value=%d surroundings=%s", n, names[b], j, bad, sn)}
 	}, eval)
 
 	// (iv) duplicates among 0..12 other documents at every pair of positions
@@ -291,16 +327,30 @@ func Run(r *fw.Run) {
 	fw.Explore(r, "duplicates/positions", fw.Full, func(c *fw.Ctx) Case {
 		d := dups[c.Choose(len(dups), "conflict kind")]
 		k := fw.Pick(c, []int{0, 1, 2, 5, 12}, "other documents")
+		before, after, sn := surroundings(c)
+		if sn != surroundNames[0] && k > 2 {
+			c.Skip()
+		}
 		var base []*resource.Info
 		if d.noAdmin {
-			base = append(workloads(), othersNoAdmin(k)...)
+			base = append(append(before, othersNoAdmin(k)...), after...)
 		} else {
-			base = append(workloads(), others(k)...)
+			base = append(append(before, others(k)...), after...)
+		}
+		if sn == surroundNames[1] {
+			// no workload at all: the other documents are policies only
+			var pol []*resource.Info
+			for _, inf := range base {
+				if inf.Object.GetObjectKind().GroupVersionKind().Kind != "Deployment" {
+					pol = append(pol, inf)
+				}
+			}
+			base = pol
 		}
 		if d.single {
 			i := c.Choose(len(base)+1, "position")
 			infos := append(append(append([]*resource.Info{}, base[:i]...), d.a()), base[i:]...)
-			return Case{Infos: infos, Expect: d.expect, Desc: fmt.Sprintf("%s others=%d position=%d", d.name, k, i)}
+			return Case{Infos: infos, Expect: d.expect, Desc: fmt.Sprintf("%s others=%d position=%d surroundings=%s", d.name, k, i, sn)}
 		}
 		total := len(base) + 2
 		i := c.Choose(total, "position of first")
@@ -313,7 +363,7 @@ func Run(r *fw.Run) {
 		if swap == 1 {
 			a, b = b, a
 		}
-		return Case{Infos: insertAt(base, i, j, a, b), Expect: d.expect, Desc: fmt.Sprintf("%s others=%d positions=(%d,%d) swapped=%d", d.name, k, i, j, swap), Exposure: d.noAdmin}
+		return Case{Infos: insertAt(base, i, j, a, b), Expect: d.expect, Desc: fmt.Sprintf("%s others=%d positions=(%d,%d) swapped=%d surroundings=%s", d.name, k, i, j, swap, sn), Exposure: d.noAdmin}
 	}, eval)
 
 	// (v) pods of one owner with differing labels, every order among other pods
@@ -344,11 +394,12 @@ func Run(r *fw.Run) {
 		for i := 0; i < k; i++ {
 			docs = append(docs, wm.InfoPod("ns1", fmt.Sprintf("other-%d", i), fmt.Sprintf("rs-other-%d", i%2), map[string]string{"app": "o"}, nil))
 		}
+		infos, after, sn := surroundings(c)
 		p := permFromChoices(c, len(docs))
-		infos := workloads()
 		for _, i := range p {
 			infos = append(infos, docs[i])
 		}
-		return Case{Infos: infos, Expect: expect, Desc: fmt.Sprintf("owner-labels variant=%d others=%d order=%v", vi, k, p), Exposure: true}
+		infos = append(infos, after...)
+		return Case{Infos: infos, Expect: expect, Desc: fmt.Sprintf("owner-labels variant=%d others=%d order=%v surroundings=%s", vi, k, p, sn), Exposure: true}
 	}, eval)
 }
